@@ -210,6 +210,14 @@ impl Report {
         let _ = std::fs::create_dir_all(&evdir);
         std::fs::write(evdir.join(format!("{}.json", self.property)), serde_json::to_string_pretty(&ev).unwrap()).expect("write evidence");
         eprintln!("[{}] {} tier: states={} transitions={} distinct={} violations={} known={} wall={:.1}s exhaustive={}", self.property, self.tier, states, transitions, distinct, viol_by_sig.len(), known_all.len(), wall, exhaustive);
+        // a confirmed, replayable violation is a verdict even if cross-checks also complain
+        // (their complaints are usually its consequence); without one, machinery errors decide
+        if !viol_by_sig.is_empty() {
+            for m in self.machinery.iter().take(20) {
+                eprintln!("MACHINERY-WARNING (alongside violations): {}", m);
+            }
+            return 1;
+        }
         if !self.machinery.is_empty() {
             for m in self.machinery.iter().take(20) {
                 eprintln!("MACHINERY-ERROR: {}", m);
@@ -219,9 +227,6 @@ impl Report {
         if states == 0 {
             eprintln!("MACHINERY-ERROR: nothing was explored");
             return 2;
-        }
-        if !viol_by_sig.is_empty() {
-            return 1;
         }
         0
     }
